@@ -83,6 +83,8 @@ impl Exec for FunctionDeclaration {
             params: self.params.clone(),
             body: Body::Lang(body),
             return_type: self.return_type.clone(),
+            #[cfg(feature = "verif")]
+            helper: crate::verif::in_helper_scope(),
         }
         .into();
         interpreter.insert(self.ident.clone(), function.clone().into());
